@@ -30,12 +30,19 @@ def peer_script(g, kind, i):
         return b"GET /r%d HTTP/1.0\r\nHost: x\r\n\r\n" % i
     if kind == "persist-idle":
         return b"GET /r%d HTTP/1.1\r\nHost: x\r\n\r\n" % i
+    if kind == "http10-keepalive":
+        return b"GET /r%d HTTP/1.0\r\nHost: x\r\nConnection: keep-alive\r\n\r\n" % i
+    if kind == "http11-keepalive":
+        return b"GET /r%d HTTP/1.1\r\nHost: x\r\nConnection: Keep-Alive\r\n\r\n" % i
     if kind == "post-slow-body":
         return b"POST /r%d HTTP/1.1\r\nHost: x\r\nConnection: close\r\nContent-Length: 12\r\n\r\nhello world!" % i
     raise ValueError(kind)
 
 
-KINDS = ["slowhead", "close-stream", "http10", "persist-idle", "post-slow-body"]
+KINDS = ["slowhead", "close-stream", "http10", "persist-idle", "post-slow-body", "http10-keepalive", "http11-keepalive"]
+# persistence by the HTTP rules (not by the server's own flag): HTTP/1.1 unless 'Connection: close', HTTP/1.0 only with 'Connection: keep-alive'
+PERSISTENT = {"slowhead": True, "persist-idle": True, "http10-keepalive": True, "http11-keepalive": True,
+              "close-stream": False, "http10": False, "post-slow-body": False}
 
 
 class C28(Check):
@@ -53,7 +60,7 @@ class C28(Check):
                   "stub": ["socket module", "TLS record layer / handshake", "peers", "WSGI app (plan driven)", "store clock advanced by the simulator"]}
     assumptions = ["'activity' is a byte accepted by send or returned by recv on the connection's socket (TLS: record bytes)",
                    "safety only: nothing requires an idle connection to be dropped promptly"]
-    required_probes = ["timer-close", "response-complete-close", "persisted-survived", "tls", "plain", "active-beyond-timeout", "partial-send-beyond-timeout"]
+    required_probes = ["timer-close", "response-complete-close", "persisted-survived", "tls", "plain", "active-beyond-timeout", "partial-send-beyond-timeout", "http10-keepalive-survived"]
     quick_runs = 8000
     thorough_runs = 400000
     shrink_fields = ["schedule", "peers"]
@@ -136,7 +143,9 @@ class C28(Check):
                 if ix is not None and ix.cs is not None:
                     sock = getattr(ix.cs, "sock", ix.cs)
                     closes.append({"ca": ca, "now": store.stamp, "last": sock.last_activity, "cutoff": bool(ix.cutoff),
-                                   "persisted": bool(rq.persisted) if rq is not None else False,
+                                   # kept alive by HTTP persistence = a complete request that asks for it has been received
+                                   "persisted": bool(rq is not None and rq.ended and PERSISTENT.get(next((p["kind"] for p in peers if p["raw"].laddr == ca), None), False)),
+                                   "persisted_flag": bool(rq.persisted) if rq is not None else False,
                                    "errored": bool(rq.errored) if rq is not None else False,
                                    "resp_ended": bool(rp.ended) if rp is not None else None,
                                    "has_req": bool(rq is not None and rq.ended),
@@ -244,8 +253,11 @@ class C28(Check):
                             if cap < 1000 and ix.txes:
                                 out.probe("partial-send-beyond-timeout")
                         rq = valet.reqs.get(ca)
-                        if rq is not None and rq.persisted and store.stamp - sock.last_activity >= T:
+                        pk = next((p["kind"] for p in peers if p["raw"].laddr == ca), None)
+                        if rq is not None and rq.ended and PERSISTENT.get(pk) and store.stamp - sock.last_activity >= T:
                             out.probe("persisted-survived")
+                            if pk == "http10-keepalive":
+                                out.probe("http10-keepalive-survived")
         out.digest = tr.digest()
         out.state_digest = abstract.hexdigest()[:16]
         out.nontrivial = bool(closes)
